@@ -13,9 +13,11 @@ CONF = dict(
           'ahead of the reply, sends only stale replies, bad metadata (stratum 0/16, mode, LI, version), or transmit < receive; between calls: nothing, a short pause, '
           'ResetInterleavedMode, a change of reference, a real 3 s pause, a client clock reading exactly 3 s + {-2..2 ns, +-1 us, +-1 s} after the previous transmit stamp (window edge), '
           'or a client clock reading after the 2036 era rollover. Recorded per attempt: request fields on the wire, the four timestamps handed to the measurements.Filter, offset and delay '
-          'the client logged, receive time, client state (reflection), result of every call. A history is non-trivial when it contains an accepted interleaved response after a '
-          'loss / duplicate / stale / junk / refused event; distinct = distinct (kind, input)'),
-    assumptions=['fresh_socket_per_request: only replies to copies of the current request reach its socket (the client opens a new socket per request); re-addressed copies of the reply to an earlier request with IDENTICAL timestamp fields (retry after a timeout) are outside the theorem',
+          'the client logged, receive time, client state (reflection), result of every call. SCION histories: replies without / with a receive-timestamp option (type 253) in software or raw-hardware form, whose value is then the receive time (an input of the model). A history is non-trivial when it contains an accepted interleaved response after a '
+          'loss / duplicate / stale / junk / refused event; distinct = distinct (kind, input). Further kinds per run: c03.fallback (8: one basic exchange, IP and SCION, with hardware timestamping requested on the loopback interface so that every kernel timestamp read fails and the clock fallback is used; same oracle; known finding), '
+          'c03.multi (2: MeasureClockOffsetSCION with two clients and two paths, one next hop answering garbage at once, the other delayed: the round must report the one successful measurement), c03.kstamps (per worker: at most 5 % of the ordinary attempts may use the clock fallback)'),
+    assumptions=['the bound theorem covers exchanges whose t0 / t3 are the kernel transmit / receive timestamps (departure of the request, arrival of the reply); the clock fallback (cTxTime1 = timebase.Now() after the 1 ms poll of ReadTXTimestamp when no kernel transmit timestamp can be read, 1-2 ms late) is outside it and is a recorded finding (KNOWN_FINDINGS id clock-fallback-t0), reproduced every run by case kind c03.fallback under the same oracle',
+                 'fresh_socket_per_request: only replies to copies of the current request reach its socket (the client opens a new socket per request); re-addressed copies of the reply to an earlier request with IDENTICAL timestamp fields (retry after a timeout) are outside the theorem',
                  'client_clock_strict: a reply arrives after its request was stamped, within one NTP era, so the two stamps differ as Time64 values',
                  'the server never reuses a receive stamp for this client (C06 proves this for the records it keeps); causality: a request copy is received after it was sent, a reply copy arrives after it was stamped; theta constant within one exchange, arbitrary across exchanges',
                  'numeric bound: all stamps within 2^31 s of the client clock reading, durations below 2^61 ns; time.Time as unbounded nanoseconds'],
